@@ -12,7 +12,7 @@ use serde_json::json;
 use std::collections::BTreeSet;
 
 /// (type text, needs U, needs N, needs 'a, needs T: Tr, Default-value expression usable without bounds)
-const TYPES: [(&str, bool, bool, bool, bool, &str); 16] = [
+const TYPES: [(&str, bool, bool, bool, bool, &str); 17] = [
     ("T", false, false, false, false, ""),
     ("Option<T>", false, false, false, false, "None"),
     ("Vec<T>", false, false, false, false, "Vec::new()"),
@@ -25,6 +25,8 @@ const TYPES: [(&str, bool, bool, bool, bool, &str); 16] = [
     ("[u8; N]", false, true, false, false, "[0; N]"),
     ("T::Assoc", false, false, false, true, ""),
     ("i8", false, false, false, false, "7"),
+    // the parameter spelled as a raw identifier
+    ("Option<r#T>", false, false, false, false, "None"),
     ("fn(T) -> U", true, false, false, false, ""),
     ("*const T", false, false, false, false, "::core::ptr::null()"),
     ("<T as Tr>::Assoc", false, false, false, true, ""),
@@ -82,6 +84,10 @@ enum Unused {
     Attr,
     /// comparison through `key = ..`
     Key,
+    /// `#[eq(ignore)]` (PartialEq, Eq, Hash)
+    EqAttr,
+    /// `#[eq(key = ..)]` (PartialEq, Eq, Hash)
+    EqKey,
 }
 
 #[derive(Clone, Debug)]
@@ -116,11 +122,11 @@ fn gen(ch: &mut Ch, thorough: bool) -> Option<Case> {
         return None;
     }
     let n = 1 + ch.pick(if thorough { 3 } else { 2 });
-    let ntypes = if thorough { TYPES.len() } else { 12 };
+    let ntypes = if thorough { TYPES.len() } else { 13 };
     let mut fields = Vec::new();
     for i in 0..n {
         let ty = ch.pick(ntypes);
-        let u = *ch.of(&[Unused::No, Unused::Attr, Unused::Key]);
+        let u = *ch.of(&[Unused::No, Unused::Attr, Unused::Key, Unused::EqAttr, Unused::EqKey]);
         match u {
             Unused::No => {}
             Unused::Attr => {
@@ -133,6 +139,11 @@ fn gen(ch: &mut Ch, thorough: bool) -> Option<Case> {
             }
             Unused::Key => {
                 if !is_cmp(tname) {
+                    return None;
+                }
+            }
+            Unused::EqAttr | Unused::EqKey => {
+                if !matches!(tname, "PartialEq" | "Eq" | "Hash") {
                     return None;
                 }
             }
@@ -219,6 +230,14 @@ fn build(c: &Case) -> Built {
             Unused::Key => {
                 us = false;
                 a = "#[ord(key = ::core::mem::size_of_val(&$))]".into();
+            }
+            Unused::EqAttr => {
+                us = false;
+                a = "#[eq(ignore)]".into();
+            }
+            Unused::EqKey => {
+                us = false;
+                a = "#[eq(key = ::core::mem::size_of_val(&$))]".into();
             }
         }
         if c.container == 3 {
@@ -357,7 +376,7 @@ fn build(c: &Case) -> Built {
 
 pub fn run(ctx: &Ctx, rep: &mut Report) {
     let thorough = ctx.tier.is_thorough();
-    rep.rule = "terminal state = (trait form [9 plain traits, binary operators in 4 reference forms, assign in 2, unary in 2], container in {tuple struct, named struct, enum with a default / non-default variant, struct with a debug(transparent) field}, 1..3 fields each with a type from a grammar over the parameters [T, Option<T>, Vec<T>, Box<T>, Rc<T>, PhantomData<T>, &'a T, (T,U), [T;N], [u8;N], T::Assoc, i8, fn(T)->U, *const T, <T as Tr>::Assoc, Option<Vec<T>>] and used or made unused by {debug(ignore), ord(ignore), explicit default value, key = .., non-default variant, non-transparent field}, declared where-clause or not, entry point); inner enumeration = every instantiation of the parameters by probe types implementing chosen subsets of the traits / operator forms x every form; distinct by program text; non-trivial = the probe matrix contains both applicable and non-applicable instantiations".into();
+    rep.rule = "terminal state = (trait form [9 plain traits, binary operators in 4 reference forms, assign in 2, unary in 2], container in {tuple struct, named struct, enum with a default / non-default variant, struct with a debug(transparent) field}, 1..3 fields each with a type from a grammar over the parameters [T, Option<T>, Vec<T>, Box<T>, Rc<T>, PhantomData<T>, &'a T, (T,U), [T;N], [u8;N], T::Assoc, i8, Option<r#T>, fn(T)->U, *const T, <T as Tr>::Assoc, Option<Vec<T>>] and used or made unused by {debug(ignore), ord(ignore), eq(ignore), explicit default value, ord(key = ..), eq(key = ..), non-default variant, non-transparent field}, declared where-clause or not, entry point); inner enumeration = every instantiation of the parameters by probe types implementing chosen subsets of the traits / operator forms x every form; distinct by program text; non-trivial = the probe matrix contains both applicable and non-applicable instantiations".into();
     rep.assumptions = vec!["reference W_ref = declared predicates + {FieldTy: trait-form | field used and FieldTy mentions a type or const parameter}, written as the where-clause of a marker impl on a twin type; rustc's trait solver evaluates both sides (impls! probe), so a differently written but equivalent where-clause is not an alarm".into(), "twins that do not compile on their own are skipped (counted); if the twin compiles, the derive_ex program must compile as well".into()];
     let mut cases: Vec<Case> = Vec::new();
     if let Some(p) = &ctx.replay {
@@ -426,7 +445,7 @@ pub fn run(ctx: &Ctx, rep: &mut Report) {
         let ntr = if thorough { TRAITS.len() } else { 14 };
         let mut progs: Vec<(String, String)> = Vec::new();
         for (tname, list, kind, _) in TRAITS.iter().take(ntr) {
-            for (shape, is_enum) in [("pub struct X<T>(pub T, pub Option<T>) where Self: Marker, Option<Self>: Marker;", false), ("pub struct X<T: PartialEq<Vec<Self>>> { pub a: T }", false), ("pub enum X<T> where Self: Marker { #[default] A, B(T) }", true)] {
+            for (shape, is_enum) in [("pub struct X<T>(pub T, pub Option<T>) where Self: Marker, Option<Self>: Marker;", false), ("pub struct X<T: PartialEq<Vec<Self>>> { pub a: T }", false), ("pub enum X<T> where Self: Marker { #[default] A, B(T) }", true), ("pub struct X<T>(pub T) where Self: Tr, <Self as Tr>::Assoc: Marker;", false)] {
                 if is_enum && *kind != Kind::Simple {
                     continue;
                 }
